@@ -6,9 +6,9 @@ import vlib
 
 META = {
     "category": "model_checking",
-    "text": "Presentation.tla transcribes the writer (Display for Label/Name, CharStr::display_quoted, the ZonefileFmt and fmt::Display forms of Record and of TXT, HINFO, NS/CNAME/PTR/DNAME, MX and RFC 3597 generic data, the Simple / Tabbed / MultiLine FormatWriters with block parentheses and comments) and composes it with the reader machine of ZoneFile.tla; TLC checks Read(Render(Write(r, kind))) = <<r>> for every record of a field-kind grid over the 15 escape-relevant octets (labels and strings up to length 2 quick / 3 thorough, empty strings, root and multi-label names, classes, TTL bounds, generic data), all four forms, with and without origin (12.7k quick). Every such case is executed on the real library in both directions: the library's own text read back by zonefile::inplace::Zonefile must equal the record, and the specification writer's text must read back equal too; a grid over a hand-assembled wire RDATA table of 33 record types (A ... SVCB/HTTPS, ZONEMD, unknown) x variants x four forms x origin is executed with the round-trip law as expectation; recorded runs on random records (all 256 octet values, labels to 63, strings to 255 octets) are validated by TLC: the specification's reader, given the library's text, must return what the library's reader returned, and that must be the record written.",
-    "note": "Trusted: TLC, the transcriptions in Presentation.tla / ZoneFile.tla, the harness. The library's text is not compared literally (spacing and escape style are free); both texts are compared through the readers. Per-type field layouts are not modelled here (Rdata.tla, C05): the type sweep uses hand-assembled wire data and states only the round-trip law; its deviation guards are grid cells. Records are compared with the library's own equality (names case-insensitively) plus class and TTL. Six writer defects are modelled as named deviations (known findings); the reader's (C07) are taken into account when predicting a misreading.",
-    "technique": "TLA+ spec (Presentation.tla + ZoneFile.tla) + TLC exhaustive; spec->impl case replay in both directions; impl->spec trace validation",
+    "text": "Presentation.tla transcribes the writer (Display for Label/Name, CharStr::display_quoted / display_unquoted, the ZonefileFmt and fmt::Display forms of Record and of TXT, HINFO, NS/CNAME/PTR/DNAME, MX and RFC 3597 generic data, the Simple / Tabbed / MultiLine FormatWriters with block parentheses, comments and newline()) and composes it with the reader machine of ZoneFile.tla; TLC checks Read(Render(Write(r, kind))) = <<r>> for every record of a field-kind grid over the 15 escape-relevant octets (labels and strings up to length 2 quick / 3 thorough, empty strings, root and multi-label names, classes, TTL bounds and unit multiples, generic data), all four forms, with and without origin (12.8k quick), the same law through the token route (record data as a token list read by the record-data scanners: IterScanner) and for label / character-string texts on their own (OwnedLabel::from_str, CharStr::from_str). Zones: MC_PresentZone.tla is a state machine that writes a zone record by record (a writer per record with a kind of its own, or all records through one FormatWriter with newline() between them) and reads the file so far with a configured reader (origin, set_default_class, allow_invalid) after every step; invariant: every record comes back in order, whatever class / TTL / owner the reader remembers from earlier entries, except that the strict reader ends at the first record of another class (RFC 1035 5.2); 8.7k states quick (2 records), 3 records thorough. Every case of both grids is executed on the real library in both directions (the library's text and the specification's text are read back); a grid over a hand-assembled wire RDATA table of 33 record types (A ... SVCB/HTTPS incl. dohpath / ohttp, ZONEMD, unknown) x variants x four forms x origin is executed with the round-trip law as expectation, also through the token route. Every case carries one combination of alias routes: how the record is built (Record::new, From tuples, set_class, RecordHeader::into_record, Record::parse with RecordHeader::compose), how its data is built (wire, typed constructors incl. Txt::from_octets / from_slice / parse_rdata, CharStr / Txt / SvcParams builders with the typed SvcParam methods and getters, OctetsFrom), which type is written (ZoneRecordData, AllRecordData, a reference, parsed names, a FormatWriter of the harness) and how the reader is set up (From<&[u8]>, From<&str>, load, BufMut, extend_from_slice, Default + reserve). Recorded runs on random records (all 256 octet values, labels to 63, strings to 255 octets) and random zones (2-5 records, mixed or uniform classes, random reader configuration and constructor) are validated by TLC: the specification's reader, given the library's text, must return what the library's reader returned, and that must be what was written.",
+    "note": "Trusted: TLC, the transcriptions in Presentation.tla / ZoneFile.tla, the harness (incl. its cutting of the library's tokens into words for the token route of the type sweep). The library's text is not compared literally (spacing and escape style are free); both texts are compared through the readers. Per-type field layouts are not modelled here (Rdata.tla, C05): the type sweep uses hand-assembled wire data and states only the round-trip law; its deviation guards are grid cells. Records are compared with the library's own equality (names case-insensitively) plus class and TTL; zone outcomes are compared entry by entry on wire forms. The strict reader's same-class check is taken from the reader's documentation / ZoneFile.tla. The token route does not offer SvcParams (Scanner::scan_svcb_octets is documented as implemented by some scanners only). Seven defects are modelled as named deviations (known findings), among them D_iterscanner_marker (IterScanner cannot read the RFC 3597 generic form); the reader's (C07) are taken into account when predicting a misreading.",
+    "technique": "TLA+ spec (Presentation.tla + ZoneFile.tla; MC_Presentation field grid, MC_PresentZone zone state machine) + TLC exhaustive; spec->impl case replay in both directions over alias routes; impl->spec trace validation (records and zones)",
     "design_ref": "DESIGN.md §4 C06",
 }
 
@@ -39,6 +39,35 @@ def _groups_from_cases(ctx, res, path):
 
 
 GROUPS = ["owner1", "owner2", "txt", "hinfo", "name", "mx", "generic", "ctt"]
+ZONE_ACTIONS = ["WriteRecordCat", "BeginZoneFmt", "WriteRecordFmt"]
+ZONE_CELLS = ["allow-mixed", "allow-same", "strict-mixed", "strict-same"]
+MK = ["new", "tuple_u32", "tuple_ttl", "in_default", "header", "parse"]
+MKD = ["wire", "typed", "builder"]
+WR = ["zone", "all", "ref", "parsed", "own"]
+CTOR = ["from_slice", "from_str", "load", "bufmut", "extend", "default_reserve"]
+
+
+def _count(ctx, res, path, fields):
+    """vacuity guard on generated cases: count the values of in.<field> (a
+    string, or a list of strings for routes)"""
+    counts = {}
+    with open(path) as f:
+        for line in f:
+            o = json.loads(line)["in"]
+            for fld in fields:
+                v = o
+                for k in fld.split("."):
+                    v = v.get(k) if isinstance(v, dict) else None
+                if v is None:
+                    continue
+                for i, x in enumerate(v if isinstance(v, list) else [v]):
+                    key = "%s%s=%s" % (fld, i if isinstance(v, list) else "", x)
+                    counts[key] = counts.get(key, 0) + 1
+    for a, n in counts.items():
+        res.coverage[a] = (n, n)
+        od, og = ctx.coverage_actions.get(a, (0, 0))
+        ctx.coverage_actions[a] = (od + n, og + n)
+    return counts
 
 
 def run(ctx):
@@ -63,6 +92,8 @@ def run(ctx):
         raise vlib.ToolError("generator produced too few cases")
     _groups_from_cases(ctx, gen, cases)
     ctx.require_actions(gen, GROUPS)
+    _count(ctx, gen, cases, ["route"])
+    ctx.require_actions(gen, ["route0=" + x for x in MK] + ["route1=" + x for x in MKD] + ["route2=" + x for x in WR])
     head = os.path.join(ctx.work, "head.ndjson")
     with open(cases) as f, open(head, "w") as g:
         for i, line in enumerate(f):
@@ -72,6 +103,29 @@ def run(ctx):
     rc, out, err, _ = ctx.run_bin("replay_present", ["--selftest-perturb"], stdin_path=head)
     ctx.selftest("perturbed expectation is reported by replay_present", "FAIL " in out)
     ctx.replay_cases("replay_present", cases, label="fields")
+
+    # zones: several records, configured reader (state machine across entries)
+    mz = ctx.tlc("MC_PresentZone", "MC_PresentZone" + suffix, workers=8, label="mc-zone", coverage=False)
+    ctx.require_ok(mz, "MC_PresentZone")
+    ctx.exhaustive_flags.append(True)
+    zcases = os.path.join(ctx.work, "cases-zone.ndjson")
+    gz = ctx.tlc("MC_PresentZone", "Gen_PresentZone" + suffix, workers=8, label="gen-zone",
+                 coverage=False, cases_to=zcases, count=False)
+    ctx.require_ok(gz, "Gen_PresentZone")
+    if gz.ncases < 5000:
+        raise vlib.ToolError("zone generator produced too few cases")
+    _count(ctx, gz, zcases, ["act", "cell", "zone.ctor", "zone.mode"])
+    ctx.require_actions(gz, ["act=" + a for a in ZONE_ACTIONS] + ["cell=" + c for c in ZONE_CELLS]
+                        + ["zone.ctor=" + c for c in CTOR] + ["zone.mode=cat", "zone.mode=fmt"])
+    zhead = os.path.join(ctx.work, "head-zone.ndjson")
+    with open(zcases) as f, open(zhead, "w") as g:
+        for i, line in enumerate(f):
+            if i >= 20:
+                break
+            g.write(line)
+    rc, out, err, _ = ctx.run_bin("replay_present", ["--selftest-perturb"], stdin_path=zhead)
+    ctx.selftest("perturbed zone expectation is reported by replay_present", "FAIL " in out)
+    ctx.replay_cases("replay_present", zcases, label="zones")
 
     # type sweep
     types = os.path.join(ctx.work, "types.ndjson")
@@ -98,6 +152,8 @@ def run(ctx):
         if rc != 0 or "RECORDED " not in out:
             raise vlib.ToolError("record_present failed: " + (out + err)[-500:])
         rec = json.loads(out[out.index("RECORDED ") + 9:].splitlines()[0])
+        if rec.get("zones", 0) < 20 or rec.get("zones_read_through", 0) < 10:
+            raise vlib.ToolError("recorder produced too few zone events")
         ctx.evaluations += rec["events"]
         ctx.stage("record-%d" % i, rec)
         ok, res, rej = ctx.validate_trace("Trace_Presentation", "Trace_Presentation", tr, label="trace-%d" % i)
@@ -114,7 +170,7 @@ def run(ctx):
             done = False
             for j, l in enumerate(lines):
                 o = json.loads(l)
-                if o["ev"] == "rt" and o.get("eq") and o["rec"]["rtype"] == 16:
+                if o.get("ev") == "rt" and o.get("eq") and o["rec"]["rtype"] == 16:
                     # the library claims it read back a different TTL
                     o["res"]["entries"][0]["ttl"] = (o["res"]["entries"][0]["ttl"] + 1) % 1000
                     lines[j] = json.dumps(o)
@@ -125,7 +181,31 @@ def run(ctx):
             open(bad, "w").write("\n".join(lines) + "\n")
             ok2, _, _ = ctx.validate_trace("Trace_Presentation", "Trace_Presentation", bad, label="trace-selftest")
             ctx.selftest("corrupted trace is rejected by Trace_Presentation", not ok2)
+            # a zone read with allow_invalid whose last record comes back with the
+            # class of the first one (what a reader that lets its remembered class
+            # win would return)
+            lines = open(tr).read().splitlines()
+            done = False
+            for j, l in enumerate(lines):
+                o = json.loads(l)
+                if o.get("ev") != "zone" or not o["cfg"]["allow"] or o["res"].get("err"):
+                    continue
+                ents = o["res"]["entries"]
+                if len(ents) >= 2 and ents[-1]["class"] != ents[0]["class"]:
+                    ents[-1]["class"] = ents[0]["class"]
+                    lines = [lines[0], json.dumps(o)]
+                    done = True
+                    break
+            if not done:
+                raise vlib.ToolError("no zone event to corrupt for the trace self-test")
+            badz = os.path.join(ctx.work, "trace-badzone.ndjson")
+            open(badz, "w").write("\n".join(lines) + "\n")
+            ok3, _, _ = ctx.validate_trace("Trace_Presentation", "Trace_Presentation", badz, label="trace-selftest-zone")
+            ctx.selftest("zone trace with a replaced class is rejected by Trace_Presentation", not ok3)
     ctx.assume("escape-relevant alphabet: NUL SP \" $ ( ) . ; @ \\ 0 a A DEL 0xFF")
     ctx.assume("every form is made a line by appending LF (the writers do not end the line); default class unset, origin absent or ex./example.")
     ctx.assume("texts are compared through the readers, not literally")
     ctx.assume("type sweep: hand-assembled wire RDATA per type; only the round-trip law is stated for it")
+    ctx.assume("zones: pool of 6 records (3 classes, 5 TTLs, 4 owners, TXT/NS/MX/HINFO/generic), up to 2 (quick) / 3 (thorough) records per file; strict reader: the RFC 1035 5.2 same-class check is part of the expectation")
+    ctx.assume("routes (record / data constructors, data types written, reader constructors) are aliases: one combination per case, spread over the grid")
+    ctx.assume("token route: the specification's tokens (field grid) and the library's tokens cut into words by the harness (type sweep) are read by IterScanner; SvcParams are outside it (Scanner::scan_svcb_octets is not implemented by IterScanner, documented)")
